@@ -148,7 +148,7 @@ func checkC06(c *Check) {
 		}
 		c.require(ok, "C06.1 negotiation", fnName, "hold time = min(configured, received)", pos, detail)
 	}
-	c.floor("C06.1 negotiation", n, 2, "OpenConfirm returns partitioned by the negotiated value")
+	c.floor("C06.1 negotiation", n, 1, "OpenConfirm returns partitioned by the negotiated value")
 
 	// keepalive interval = hold time / 3 and timers armed, hold time != 0
 	isHold := func(e *Expr) bool { return isLoadOfField(e, "holdTime") && e.Args[0].Aux == "fsm" }
@@ -159,21 +159,11 @@ func checkC06(c *Check) {
 		if zero {
 			set = isConst(0)
 		}
-		// the final `f.holdTime != 0` test reads the field after the stores
-		b.AtomHook = func(e *Expr) (ISet, bool) {
-			if op, x, y, ok := cmpOf(e); ok && (op == "!=" || op == "==") {
-				var o *Expr
-				if c, isC := x.IsConst(); isC && c == 0 {
-					o = y
-				} else if c, isC := y.IsConst(); isC && c == 0 {
-					o = x
-				}
-				if o != nil && (isHold(o) || isRemote(o) || isLocal(o)) && intTypeInfo(o.Typ).bits == 64 {
-					return isConst(b2i((op == "!=") != zero)), true
-				}
-			}
-			return nil, false
-		}
+		// every read of the negotiated value goes through the field (never
+		// forwarded from the store), so the assumption is about the field
+		// whatever expression computed it
+		b.OpaqueFields = map[string]bool{"fsm.holdTime": true}
+		b.AtomHook = rangeHook(isHold, set)
 		_ = set
 		b.Run()
 		m := 0
@@ -195,7 +185,7 @@ func checkC06(c *Check) {
 				okI := ka != nil && ka.Op == "bin" && ka.binOp() == "/"
 				if okI {
 					cv, isC := ka.Args[1].IsConst()
-					okI = isC && cv == 3
+					okI = isC && cv == 3 && isHold(ka.Args[0])
 				}
 				c.require(okI, "C06.2 timer-arming", fnName, "keepalive interval = hold time / 3", pos, fmt.Sprintf("fsm.keepAliveInterval = %v", ka))
 				c.require(st.must["assign:keepAliveTimer"] && st.must["call:fsm.drainAndResetHoldTimer"], "C06.2 timer-arming", fnName, "timers armed for a non-zero hold time", pos,
